@@ -81,6 +81,9 @@ pub struct TransRes {
     pub out_serials: Vec<u32>,
     pub exec: ExecReport,
     pub extra: Vec<crate::oracle::Finding>,
+    /// C14: iterator words run on the concrete post-state of the transition
+    pub iter_runs: u64,
+    pub iter_problems: Vec<String>,
 }
 
 pub trait Driver: Sync + Send {
@@ -256,8 +259,14 @@ impl<S: Subject> SubjDriver<S> {
                 None => break,
             };
             let mut out = Vec::new();
+            let _ = take_cb_log();
             let r1 = apply_caught(&mut o, *op, &mut out);
+            let cb1 = take_cb_log();
             let r2 = apply_caught(&mut k, *op, &mut out);
+            let cb2 = take_cb_log();
+            if cb1 != cb2 {
+                bad(format!("after cloning, {:?} makes the original's eviction callback see {:?} but the clone's {:?}", op, cb1, cb2));
+            }
             let so = snap_of(&o);
             let sk = snap_of(&k);
             if r1 != r2 {
@@ -360,6 +369,17 @@ impl<S: Subject> Driver for SubjDriver<S> {
                         let post = snap_of(&c);
                         if !panicked {
                             res.exec.conservation = conservation(&post);
+                        }
+                        if want.iters && !panicked && res.audit.structural.is_empty() {
+                            // the concrete object reached by this very transition (not only the state's
+                            // representative history): a mis-linked list can hide behind an unchanged snapshot
+                            match catch_unwind(AssertUnwindSafe(|| c.iter_check(&post, 1))) {
+                                Ok((n, p)) => {
+                                    res.iter_runs = n;
+                                    res.iter_problems = alloc::untracked(|| p.clone());
+                                }
+                                Err(_) => res.iter_problems = alloc::untracked(|| vec![format!("iterator check panicked: {}", panics::take_last())]),
+                            }
                         }
                         res.post = Some(post);
                         drop_caught(c, &mut res.exec);
